@@ -178,6 +178,9 @@ var c06ExtraSources = []string{
 	// a leaf-list (the trees hand out the slice they store) compared as numbers by one machine and read as
 	// strings by others
 	"a > 2", "2 != a", "a < b", "a = 'x'", "concat(a, '')", "a = b", "string-length(a)", "a >= 1 and a = 'x'",
+	// paths that go on behind deref(): the target's path comes from the tree (one object per node, handed to every run)
+	"deref(../ifref)/../mtu", "deref(../ifref)/../descr", "deref(../ifref)/../peer[id = current()/../sel]/name", "count(deref(a)/../b) + 1",
+	"deref(../ifref)/../mtu > 1400 and deref(../ifref)/../descr = 'x'", "string(deref(a)/../../c/d)",
 }
 
 // c06FreshSources: calls whose operands need a conversion at run time (compiled anew in every round)
